@@ -197,7 +197,7 @@ func (x *hW) handleStep(op int) {
 
 func HC02_World() {
 	_, capInc, relInc := hConfig()
-	x := hNew(0, 1+vTier(), capInc, relInc)
+	x := hNew(0, 1, capInc, relInc)
 	switch vChoice("prefix", 3) {
 	case 0:
 	case 1:
